@@ -46,12 +46,12 @@ def _rows_of(snap, dec, only=None):
 
 def concretise_script(world, model):
     """SymWorld (after a path) + model -> JSON-able replay description incl. predicted observations"""
-    if isinstance(world, (list, tuple)):
-        dec = model if isinstance(model, Decoder) else Decoder(model)
-        return dict(multi=[concretise_script(w, dec) for w in world])
-    acts = []
     if not isinstance(model, Decoder):
-        model = Decoder(model)
+        from .engine import two_pass
+        return two_pass(model, lambda dec: concretise_script(world, dec))
+    if isinstance(world, (list, tuple)):
+        return dict(multi=[concretise_script(w, model) for w in world])
+    acts = []
     for a in world.script:
         k = a[0]
         if k == "config":
